@@ -77,6 +77,8 @@ type Cluster struct {
 
 	claimed    map[string]time.Duration
 	catAt      time.Duration // last time a catalogue block was proposed
+	hostileAt  time.Duration // last time a hostile message was sent
+	recent     []recentMsg   // recent genuine traffic (material for mutation)
 	parts      [][]int // current partition (groups of node indices); nil = fully connected
 	stopReason string
 	trace      []string
@@ -117,6 +119,10 @@ type event struct {
 	msg  []byte
 	desc string
 	fn   func()
+
+	hostile     *hostileMsg
+	fpBefore    string
+	allocBefore uint64
 }
 
 type eventHeap []*event
@@ -214,6 +220,14 @@ func drawConfig(c *kernel.Ctx, mode Mode) Config {
 		}
 	}
 	// Byzantine validators: strictly less than 1/3 of the total power
+	if mode == ModeHostile {
+		cfg.MaxEvents *= 4 // hostile deliveries are events too
+		// one hostile peer holding a validator key of small power
+		cfg.Powers[cfg.N-1] = 1
+		cfg.NByz = 1
+		cfg.ByzKinds = []string{"hostile"}
+		cfg.Crashes = false
+	}
 	if mode == ModeAgreement || mode == ModeValidation || mode == ModeProposer {
 		want := t.Pick(3, 6, 2) // 0, 1 or 2 Byzantine validators
 		if mode == ModeValidation && want == 0 {
@@ -368,6 +382,13 @@ func (cl *Cluster) send(from, to int, msg cs.ConsensusMessage, why string) {
 func (cl *Cluster) sendBytes(from, to int, chID byte, bz []byte, why string) {
 	cfg := cl.cfg
 	faulty := cl.now < cfg.GST
+	if cl.mode == ModeHostile && !cl.isByz(from) {
+		if len(cl.recent) < 32 {
+			cl.recent = append(cl.recent, recentMsg{chID, bz})
+		} else {
+			cl.recent[int(cl.seq)%32] = recentMsg{chID, bz}
+		}
+	}
 	if !cl.connected(from, to) {
 		cl.c.Fault("partition-drop")
 		return
@@ -500,11 +521,15 @@ func (cl *Cluster) deliver(e *event) {
 	}
 	peer := to.peers[e.from]
 	cl.orc.delivered(to, e.from, e.chID, e.msg)
+	if e.hostile != nil {
+		e.fpBefore = stateFinger(to)
+		e.allocBefore = totalAlloc()
+	}
 	site, msg, panicked := kernel.Try(func() { to.reactor.Receive(e.chID, peer, e.msg) })
 	if panicked {
 		// a panic inside Receive is recovered by the connection layer in the
 		// real node (the peer is dropped); counted, not a violation here
-		cl.c.Probe("receive-panic")
+		cl.c.Probe("receive-panic(peer dropped)")
 		cl.orc.receivePanic(to, e, site, msg)
 	}
 }
@@ -584,6 +609,9 @@ func (cl *Cluster) done() bool {
 		}
 		if cl.mode == ModeValidation && cl.catAt > 0 && n.lastProg <= cl.catAt {
 			return false // wait for progress after the Byzantine turn
+		}
+		if cl.mode == ModeHostile && (cl.now < cl.cfg.GST || n.lastProg <= cl.hostileAt) {
+			return false // hostile traffic still flowing / no progress after it yet
 		}
 	}
 	return true
